@@ -553,6 +553,18 @@ def gen_cases(ck):
         for j in range(n):
             d.entry(ver32(1, j, 0), doc("top%d" % j, 33))
         cases.append(case(d, fam="address space"))
+    # the FILE in the last bytes of the address space (its exclusive end is exactly 2^64: a legal range, read
+    # completely), plain / zipped, with and without a hash, under small and large chunk limits
+    for size in (1, 33, 304, 1564):
+        for comp in (0, 1):
+            for sha in ("ok", None):
+                for lim in (64, 1024):
+                    body = doc("end%d" % size, size)
+                    data = mkzip([("a.xml", body)]) if comp else body
+                    d = Dev(max_cmd=lim, max_ack=lim)
+                    d.entry(ver32(1, 0, 0), doc("low", 40), sha="ok")
+                    d.entry(ver32(2, 0, 0), data, comp=comp, sha=sha, addr=U64 - len(data))
+                    cases.append(case(d, fam="address space"))
     for tabaddr in (U64 - 1, U64 - 8, U64 - 9, U64 - 72, 0x7000_0000):
         d = Dev(tab=tabaddr)
         d.entry(ver32(1, 0, 0), XML_A)
